@@ -2,6 +2,7 @@
 package c04
 
 import (
+	"encoding/base64"
 	"fmt"
 
 	"verif/engine/core"
@@ -17,7 +18,7 @@ import (
 func Run(r *core.Run) {
 	nKeys := core.Pick(r, 64, 1024)
 	r.Rule = fmt.Sprintf("keys: %d per type x 5 types x 5 nonce variants x {sha2-256, sha2-512}, and 2 RSA keys (members n, e) x 3 nonce variants: reveal/commitment/derivation identities against the reference, all commitments pairwise distinct; "+
-		"chains: every sequence create (update|recover)^<=3 deactivate x 3 key-type assignments + mixed x 2 algorithms, and every non-constant assignment of the two algorithms to the operations of a chain (algorithm migration), keys with and without a nonce along one chain (none, all, alternating, and one key per chain re-used under changing nonces), linkage of every edge through the parser; "+
+		"chains: every sequence create (update|recover)^<=3 deactivate x 3 key-type assignments + mixed x 2 algorithms, and every non-constant assignment of the two algorithms to the operations of a chain (algorithm migration), keys with and without a nonce along one chain (none, all, alternating, and one key per chain re-used under changing nonces), linkage of every edge through the parser; nonce sweep: an update for every (nonce size in {8,12,16,24,32}, first nonce byte) read by a parser configured for that size; "+
 		"distinct = distinct (key, nonce, algorithm) commitments and distinct chain edges; non-trivial = all", nKeys)
 	r.Assumptions = []string{"reference: reveal = mh(code, JCS(jwk)), commitment = mh(code, H(JCS(jwk))) with the JWK model {kty, crv, x, y[, n, e][, nonce]}", "chains are built by the harness generator with fresh keys per step"}
 	nonces := []string{"", "AAAAAAAAAAAAAAAAAAAAAA", "_____________________w", "AQIDBAUGBwgJCgsMDQ4PEA", "AAAAAAAAAAAAAAAAAAAAAQ"}
@@ -315,6 +316,50 @@ func Run(r *core.Run) {
 			r.Class("edge-" + string(st))
 		}
 	})
+	// nonce sweep: one update per (nonce size, first nonce byte, last nonce byte class) read by a parser configured for that size -
+	// every first character of the encoded nonce occurs (a value that begins like some other notation is still this value)
+	type sweep struct{ size, first, last int }
+	var sweeps []sweep
+	for _, size := range []int{8, 12, 16, 24, 32} {
+		for first := 0; first < 256; first++ {
+			sweeps = append(sweeps, sweep{size, first, first ^ 0x5a})
+		}
+	}
+	core.Parallel(len(sweeps), func(i int) {
+		sw := sweeps[i]
+		nb := make([]byte, sw.size)
+		for bi := range nb {
+			nb[bi] = byte(17*bi + sw.size)
+		}
+		nb[0], nb[sw.size-1] = byte(sw.first), byte(sw.last)
+		nonce := base64.RawURLEncoding.EncodeToString(nb)
+		p := ops.Proto()
+		p.NonceSize = uint64(sw.size)
+		parser := operationparser.New(p)
+		signer, next := keys.New("Ed25519", 4000+i%7).WithNonce(nonce), keys.New("P-256", 4100+i%5).WithNonce(nonce)
+		b := ops.Bytes(ops.ValidUpdate("EiNonceSweep", signer, next, patch, 18, ops.Window{}))
+		id := fmt.Sprintf("nonce-sweep/%d/%02x", sw.size, sw.first)
+		r.Case(id, func() *core.Fail {
+			det := map[string]any{"op": string(b), "nonce": nonce, "nonce_size": sw.size}
+			rv, err := parser.GetRevealValue(b)
+			if err != nil {
+				return &core.Fail{Key: id, What: "GetRevealValue failed on a well-formed update whose key carries a nonce of the configured size: " + err.Error(), Detail: det}
+			}
+			if c, err := commitment.GetCommitmentFromRevealValue(rv); err != nil || c != ops.Commitment(signer, 18) {
+				return &core.Fail{Key: id, What: fmt.Sprintf("reveal value maps to commitment %q (%v), the signing key's commitment is %q", c, err, ops.Commitment(signer, 18)), Detail: det}
+			}
+			if nc, err := parser.GetCommitment(b); err != nil || nc != ops.Commitment(next, 18) {
+				return &core.Fail{Key: id, What: fmt.Sprintf("parser reports next commitment %q (%v), expected %q", nc, err, ops.Commitment(next, 18)), Detail: det}
+			}
+			if _, err := parser.ParseOperation("did:sidetree", b, false); err != nil {
+				return &core.Fail{Key: id, What: "well-formed update refused: " + err.Error(), Detail: det}
+			}
+			return nil
+		})
+		r.Observe("edge", string(b))
+		r.Class("nonce-sweep")
+	})
+	r.Require("nonce-sweep", 1000)
 	r.Sample(map[string]any{"kind": "chain", "sequence": "create,update,recover,update,deactivate", "key_types": typeAssign[3]})
 	r.Require("edge-u", 10)
 	r.Require("edge-r", 10)
